@@ -217,7 +217,10 @@ def run_reader_native(stream: bytes, msg_size: int, chunks, what='reader_async')
 
         f = asyncio.ensure_future(feeder())
         try:
-            res = await asyncio.wait_for(conn.reader_async(), 5)
+            res = await asyncio.wait_for(conn.reader_async(), 2)
+        except asyncio.TimeoutError:
+            # the reader waits for bytes the stream does not hold (it read past the message): an observable outcome
+            res = (-1, -1, b'', b'', None)
         finally:
             await f
         await asyncio.sleep(0.01)
